@@ -3,7 +3,7 @@
 import sys, re, json
 sys.path.insert(0, __file__.rsplit('/',1)[0])
 import facts, symex
-F = facts.Facts(sys.argv[1])
+F = facts.Facts(sys.argv[1]) if sys.argv[1].endswith('.json') else facts.load(sys.argv[1])
 rx = sys.argv[2]
 inl = None
 if '--inline' in sys.argv:
@@ -20,7 +20,7 @@ for fn in F.fns_matching(rx):
             if t['k']=='call': print('    CALL %s(%s) -> %s  => bb%s unwind %s' % (facts.callee_name(t), ', '.join(json.dumps(a)[:80] for a in t['args']), facts.place_str(t['dest']), t['target'], t['unwind']))
             else: print('    ', json.dumps(t)[:300])
         continue
-    it = symex.Interp(F, inline=(lambda f,d,n: bool(inl.search(n))) if inl else None)
+    it = symex.Interp(F, inline=(lambda f,d,n: bool(inl.search(f.defp))) if inl else None)
     ps = it.run(fn)
     print(len(ps), 'paths')
     for p in ps:
